@@ -945,6 +945,8 @@ impl Kademlia {
                 let key = record.key.clone();
                 let message: Bytes = KademliaMessage::put_value(record);
 
+                // Peers that cannot even be contacted must not stay pending forever.
+                let mut failed_peers = Vec::new();
                 for peer in &peers {
                     if let Err(error) = self.open_substream_or_dial(
                         peer.peer,
@@ -959,6 +961,7 @@ impl Kademlia {
                             ?error,
                             "failed to put record to peer",
                         );
+                        failed_peers.push(peer.peer);
                     }
                 }
 
@@ -968,6 +971,9 @@ impl Kademlia {
                     peers.into_iter().map(|peer| peer.peer).collect(),
                     quorum,
                 );
+                for peer in failed_peers {
+                    self.engine.register_send_failure(query, peer);
+                }
 
                 Ok(())
             }
@@ -999,6 +1005,8 @@ impl Kademlia {
 
                 let message = KademliaMessage::add_provider(provided_key.clone(), provider);
 
+                // Peers that cannot even be contacted must not stay pending forever.
+                let mut failed_peers = Vec::new();
                 for peer in &peers {
                     if let Err(error) = self.open_substream_or_dial(
                         peer.peer,
@@ -1011,7 +1019,8 @@ impl Kademlia {
                             ?provided_key,
                             ?error,
                             "failed to add provider record to peer",
-                        )
+                        );
+                        failed_peers.push(peer.peer);
                     }
                 }
 
@@ -1021,6 +1030,9 @@ impl Kademlia {
                     peers.into_iter().map(|peer| peer.peer).collect(),
                     quorum,
                 );
+                for peer in failed_peers {
+                    self.engine.register_send_failure(query, peer);
+                }
 
                 Ok(())
             }
